@@ -29,7 +29,8 @@ THEOREMS = ["ESV.Beh.check_sound", "ESV.Beh.validate_sound", "ESV.C01.routine_va
             "ESV.C01Frontend.duplicate_user_label_counterexample",
             # code generator / whole compiler correct on fragment F0 (straight-line routines)
             "ESV.C01Frontend.codegen_correct_F0", "ESV.C01Frontend.compile_correct_F0",
-            "ESV.C01Frontend.codegen_correct_F1", "ESV.C01Frontend.compile_correct_F1", "ESV.Beh.E_sound"]
+            "ESV.C01Frontend.codegen_correct_F1", "ESV.C01Frontend.compile_correct_F1", "ESV.Beh.E_sound",
+            "ESV.C01Frontend.codegen_correct_F2", "ESV.C01Frontend.compile_correct_F2"]
 
 
 def table_mismatch(ast: dict, res: dict) -> str | None:
@@ -103,6 +104,8 @@ def wfl_tie(run: core.Run, drv: Any, ok_cases: list, jobs: int) -> Counter:
                 st["in_F0"] += 1
             if rep.get("f1"):
                 st["in_F1"] += 1
+            if rep.get("f2"):
+                st["in_F2"] += 1
         else:
             st["tosrc_differs"] += 1
             tshown += 1
